@@ -47,6 +47,10 @@ func NormNum(s string) (coef string, exp int64, ok bool) {
 func SameNum(a, b string) bool {
 	ca, ea, oka := NormNum(a)
 	cb, eb, okb := NormNum(b)
+	if !oka && !okb {
+		// not normalisable (e.g. an exponent beyond int64): fall back to the spelling
+		return strings.EqualFold(a, b)
+	}
 	return oka && okb && ca == cb && ea == eb
 }
 
